@@ -13,7 +13,7 @@ func (x *inst) applyMgmt(ev string, f []string) {
 	m := x.m
 	switch f[0] {
 	case "Mode":
-		err := x.guard(ev, func() error { return x.srv.SetReplicaMode(f[1]) })
+		err := x.guard(ev, func() error { return x.api().SetReplicaMode(f[1]) })
 		x.observe("%s -> %v", ev, err != nil)
 		valid := m.Open && (f[1] == "RW" || f[1] == "WO")
 		if valid && err != nil {
@@ -24,7 +24,7 @@ func (x *inst) applyMgmt(ev string, f []string) {
 			m.Mode = f[1]
 		}
 	case "Close":
-		err := x.guard(ev, func() error { return x.srv.Close() })
+		err := x.guard(ev, func() error { return x.api().Close() })
 		x.observe("%s -> %v", ev, err != nil)
 		if err != nil {
 			x.violate("close-failed", "close-failed", err.Error())
@@ -48,7 +48,7 @@ func (x *inst) applyMgmt(ev string, f []string) {
 		m.Mode = "CLOSED"
 		m.Deleted = true
 	case "Open":
-		err := x.guard(ev, func() error { return x.srv.Open() })
+		err := x.guard(ev, func() error { return x.api().Open() })
 		x.observe("%s -> %v", ev, err != nil)
 		if m.Open {
 			if err == nil {
@@ -64,7 +64,7 @@ func (x *inst) applyMgmt(ev string, f []string) {
 		m.Mode = "INIT"
 	case "Rebuild":
 		want := f[1] == "t"
-		err := x.guard(ev, func() error { return x.srv.SetRebuilding(want) })
+		err := x.guard(ev, func() error { return x.api().SetRebuilding(want) })
 		x.observe("%s -> %v", ev, err != nil)
 		valid := m.Open && ((want && !m.Rebuilding) || (!want && m.Rebuilding))
 		if valid && err != nil {
@@ -76,7 +76,7 @@ func (x *inst) applyMgmt(ev string, f []string) {
 		}
 	case "SetRev":
 		n := int64(atoi(f[1]))
-		err := x.guard(ev, func() error { return x.srv.SetRevisionCounter(n) })
+		err := x.guard(ev, func() error { return x.api().SetRevisionCounter(n) })
 		x.observe("%s -> %v", ev, err != nil)
 		valid := m.Open && m.Mode == "RW"
 		if valid && err != nil {
@@ -89,7 +89,7 @@ func (x *inst) applyMgmt(ev string, f []string) {
 	case "Checkpoint":
 		i := atoi(f[1])
 		name := disk(m.Chain[i].Name)
-		err := x.guard(ev, func() error { return x.srv.SetCheckpoint(name) })
+		err := x.guard(ev, func() error { return x.api().SetCheckpoint(name) })
 		x.observe("%s -> %v", ev, err != nil)
 		if m.Open && err != nil {
 			x.violate("setcheckpoint-failed", "setcheckpoint-failed", err.Error())
@@ -98,7 +98,7 @@ func (x *inst) applyMgmt(ev string, f []string) {
 		}
 	case "Shrink", "ResizeGarbage", "ResizeEmpty":
 		arg := map[string]string{"Shrink": strconv.Itoa(len(m.Live)*Sector - Block), "ResizeGarbage": "12q", "ResizeEmpty": ""}[f[0]]
-		x.mustRefuse(ev, func() error { return x.srv.Resize(arg) }, true)
+		x.mustRefuse(ev, func() error { return x.api().Resize(arg) }, true)
 	case "RmHead", "RmLatest", "RmBase":
 		var name string
 		ch := x.chainNames()
@@ -111,7 +111,7 @@ func (x *inst) applyMgmt(ev string, f []string) {
 			name = ch[len(ch)-1]
 		}
 		x.mustRefuse(ev, func() error {
-			ops, err := x.srv.PrepareRemoveDisk(name)
+			ops, err := x.api().PrepareRemoveDisk(name)
 			if err == nil && len(ops) > 0 {
 				return nil
 			}
@@ -126,23 +126,23 @@ func (x *inst) applyMgmt(ev string, f []string) {
 		if f[0] == "RmRawLatest" {
 			name = ch[1]
 		}
-		x.mustRefuse(ev, func() error { return x.srv.RemoveDiffDisk(name) }, true)
+		x.mustRefuse(ev, func() error { return x.api().RemoveDiffDisk(name) }, true)
 	case "RmUnknown":
 		x.mustRefuse(ev, func() error {
-			ops, err := x.srv.PrepareRemoveDisk("nosuch")
+			ops, err := x.api().PrepareRemoveDisk("nosuch")
 			if err == nil && len(ops) > 0 {
 				return nil
 			}
 			return fmt.Errorf("refused/no-op: %v", err)
 		}, true)
 	case "RmRawUnknown":
-		x.mustRefuse(ev, func() error { return x.srv.RemoveDiffDisk("volume-snap-nosuch.img") }, false)
+		x.mustRefuse(ev, func() error { return x.api().RemoveDiffDisk("volume-snap-nosuch.img") }, false)
 	case "RmWrongMode":
 		// removal in WO mode must be refused
 		ch := x.chainNames()
-		x.guard(ev, func() error { return x.srv.SetReplicaMode("WO") })
+		x.guard(ev, func() error { return x.api().SetReplicaMode("WO") })
 		x.mustRefuse(ev, func() error {
-			ops, err := x.srv.PrepareRemoveDisk(ch[2])
+			ops, err := x.api().PrepareRemoveDisk(ch[2])
 			if err == nil && len(ops) > 0 {
 				return nil
 			}
@@ -151,13 +151,13 @@ func (x *inst) applyMgmt(ev string, f []string) {
 			}
 			return err
 		}, true)
-		x.mustRefuse(ev, func() error { return x.srv.RemoveDiffDisk(ch[2]) }, true)
-		x.guard(ev, func() error { return x.srv.SetReplicaMode(m.Mode) })
+		x.mustRefuse(ev, func() error { return x.api().RemoveDiffDisk(ch[2]) }, true)
+		x.guard(ev, func() error { return x.api().SetReplicaMode(m.Mode) })
 	case "RmGate":
 		// removal and revision-counter updates must be refused unless the replica is RW
 		ch := x.chainNames()
 		x.mustRefuse(ev, func() error {
-			ops, err := x.srv.PrepareRemoveDisk(ch[2])
+			ops, err := x.api().PrepareRemoveDisk(ch[2])
 			if err == nil && len(ops) > 0 {
 				return nil
 			}
@@ -167,10 +167,10 @@ func (x *inst) applyMgmt(ev string, f []string) {
 			return err
 		}, true)
 		if len(x.viol) == 0 {
-			x.mustRefuse(ev, func() error { return x.srv.RemoveDiffDisk(ch[2]) }, true)
+			x.mustRefuse(ev, func() error { return x.api().RemoveDiffDisk(ch[2]) }, true)
 		}
 		if len(x.viol) == 0 {
-			x.mustRefuse(ev, func() error { return x.srv.ReplaceDisk(ch[2], ch[1]) }, true)
+			x.mustRefuse(ev, func() error { return x.api().ReplaceDisk(ch[2], ch[1]) }, true)
 		}
 	case "Sync", "Unmap":
 		var err error
@@ -192,15 +192,15 @@ func (x *inst) applyMgmt(ev string, f []string) {
 		}
 	case "SnapDup":
 		name := m.Chain[len(m.Chain)-1].Name
-		x.mustRefuse(ev, func() error { return x.srv.Snapshot(name, true, created) }, true)
+		x.mustRefuse(ev, func() error { return x.api().Snapshot(name, true, created) }, true)
 	case "SnapDupOld":
 		name := m.Chain[0].Name
-		x.mustRefuse(ev, func() error { return x.srv.Snapshot(name, false, created) }, true)
+		x.mustRefuse(ev, func() error { return x.api().Snapshot(name, false, created) }, true)
 	case "RevertUnknown":
-		x.mustRefuse(ev, func() error { return x.srv.Revert("volume-snap-nosuch.img", created) }, true)
+		x.mustRefuse(ev, func() error { return x.api().Revert("volume-snap-nosuch.img", created) }, true)
 	case "CheckpointUnknown":
 		// accepted by the replica as an opaque string; only recorded
-		err := x.guard(ev, func() error { return x.srv.SetCheckpoint("volume-snap-nosuch.img") })
+		err := x.guard(ev, func() error { return x.api().SetCheckpoint("volume-snap-nosuch.img") })
 		x.observe("%s -> %v", ev, err != nil)
 		if err == nil && m.Open {
 			m.Checkpoint = "nosuch"
